@@ -340,16 +340,19 @@ Definition splitRing (r : ring) (isOuter : bool) (isMulti : pt -> bool) : res ri
   else Ok sets.
 
 (** ** cleanupNewRing *)
+(** a too small ring is a point or a line; an empty ring is nothing at all (F7 repair) *)
+Definition asPointOrLine (r : ring) : list ring := match r with [] => [] | _ => [r] end.
+
 Definition cleanupNewRing (newRing : ring) (isOuter : bool) (isMulti : pt -> bool) : res ringSets :=
   let n := length newRing in
   let r1 := match newRing, last_opt newRing with
             | first :: _, Some l => if (1 <? n)%nat && pt_eqb first l then removelast newRing else newRing
             | _, _ => newRing
             end in
-  if (length r1 <? 3)%nat then Ok (mkSets [] [] [r1])
+  if (length r1 <? 3)%nat then Ok (mkSets [] [] (asPointOrLine r1))
   else
     do r2 <- kmpDeduplicate r1;
-    if (length r2 <? 3)%nat then Ok (mkSets [] [] [r2])
+    if (length r2 <? 3)%nat then Ok (mkSets [] [] (asPointOrLine r2))
     else splitRing r2 isOuter isMulti.
 
 (** ** dedupeInnersOuters *)
